@@ -111,6 +111,10 @@ func (ex *Exec) callFunction(fr *Frame, st *State, fn *ssa.Function, args []Val,
 		nilRecvCheck()
 		return ex.applyContract(fr, st, fn, ct, args, pos)
 	}
+	// call-site clauses of the function under verification also apply to callees without a contract
+	if ex.specMode == 0 {
+		ex.checkCallSites(fr, st, key, args, pos)
+	}
 	if ex.canInline(fr, fn, ct) {
 		if r, ok := ex.inlineCall(fr, st, fn, args, bind, fr.depth+1, false); ok {
 			return r
@@ -443,6 +447,8 @@ func (ex *Exec) invoke(fr *Frame, st *State, cc *ssa.CallCommon, args []Val, res
 			}
 		}
 	}
+	// call-site clauses may name the interface method ("peering.Link.Send")
+	ex.checkCallSites(fr, st, typeContractKey(cc.Value.Type())+"."+mname, args, pos)
 	if sp, ok := specs[full]; ok {
 		ex.trusted[full] = true
 		r := sp(ex, fr, st, &callCtx{recv: &recv, args: args, argVals: cc.Args, pos: pos, sig: cc.Signature()})
